@@ -92,14 +92,19 @@ pub fn run_case(g: &Graph, ops: &[ROp], perms: &[Vec<usize>]) -> String {
     s
 }
 
+/// the next generated graph has more than 256 identities
+pub static FORCE_LARGE: std::sync::atomic::AtomicBool = std::sync::atomic::AtomicBool::new(false);
 pub fn gen_graph(r: &mut Rng, thorough: bool) -> Graph {
     let n = match if gen::small() { 0 } else { 1 + r.below(10) } {
         0 => r.range(1, 4),
         1 => 1,
         2..=5 => r.range(2, 6),
         6..=8 => r.range(6, 20),
-        _ => r.range(20, if thorough { nodes::MAX_NODES as u64 } else { 48 }),
+        _ => r.range(20, if thorough { 96 } else { 48 }),
     } as usize;
+    // more identities than fit one byte: ids 256.. (rare: such graphs are slow to check)
+    let large = FORCE_LARGE.swap(false, std::sync::atomic::Ordering::Relaxed) || r.chance(1, if thorough { 60 } else { 150 });
+    let n = if !gen::small() && large { r.range(257, nodes::MAX_NODES as u64) as usize } else { n };
     let with_ph = n >= 2 && r.chance(1, 3);
     let phantom = if with_ph { Some(n - 1) } else { None };
     let local = r.chance(1, 2);
@@ -130,6 +135,14 @@ pub fn gen_graph(r: &mut Rng, thorough: bool) -> Graph {
 pub fn gen_ops(r: &mut Rng, n: usize, thorough: bool) -> Vec<ROp> {
     let len = r.range(1, if gen::small() { 3 } else if thorough { 12 } else { 8 }) as usize;
     let mut ops = vec![];
+    if n > 256 && r.chance(2, 3) {
+        // make sure more than 256 identities really get registered
+        let mut all: Vec<(usize, usize)> = (0..n).map(|k| (k, 0)).collect();
+        if r.chance(1, 2) {
+            all.reverse();
+        }
+        ops.push(ROp::Regs(all));
+    }
     for _ in 0..len {
         match r.below(10) {
             0..=5 => ops.push(ROp::Reg(r.below(n as u64) as usize, r.below(3) as usize)),
@@ -169,6 +182,10 @@ fn roots_of(ops: &[ROp]) -> Vec<usize> {
 
 pub fn registry(r: &mut Rng, n: u64, thorough: bool, out: &mut Out) {
     for case in 0..n {
+        if case == 5 || case == 40 {
+            // every run has two graphs with ids beyond one byte, whatever the random stream does
+            FORCE_LARGE.store(true, std::sync::atomic::Ordering::Relaxed);
+        }
         let g = gen_graph(r, thorough);
         let ops = gen_ops(r, g.specs.len(), thorough);
         let roots = roots_of(&ops);
